@@ -4,6 +4,7 @@ package main
 // executor's current snapshot (what the real queries return is checked separately by C17).
 
 import (
+	"math/big"
 	"bytes"
 	"fmt"
 	"math"
@@ -49,6 +50,27 @@ func (g *Gen) tx(sender int, msgs ...MsgOp) Op {
 	return Op{K: "tx", Tx: &TxOp{Label: g.label("t"), Sender: acctRef(sender), Msgs: msgs}}
 }
 
+// stakePrice: the base price of a published pricing in the base denomination (a foreign token converted at the feed's
+// current rate, rounded up; 1 if the feed has none)
+func (g *Gen) stakePrice(pricing string) (int64, bool) {
+	hp, err := ParseHPricing(pricing)
+	if err != nil {
+		return 0, false
+	}
+	b := hp.Base
+	if hp.Foreign() {
+		r := rateFor(g.x.cur.Rates, hp.Denom)
+		if r == nil {
+			return 1, true
+		}
+		b = new(big.Int).Add(floorRat(new(big.Rat).Mul(new(big.Rat).SetInt(hp.Base), r)), big.NewInt(1))
+	}
+	if !b.IsInt64() {
+		return 0, false
+	}
+	return b.Int64(), true
+}
+
 func (g *Gen) curMinDeposit(pricing string) int64 {
 	s := g.x.cur
 	hp, err := ParseHPricing(pricing)
@@ -89,6 +111,10 @@ func (g *Gen) genPricing() string {
 	if g.chance(0.02) {
 		// a price whose minimum deposit (price x multiple) does not fit 64 bits: no affordable deposit covers it
 		price = pickStr(g, []string{"92233720368547759stake", "18446744073709551616stake", "9223372036854775808stake"})
+	}
+	if g.multi && g.mrng.Float64() < 0.55 {
+		price = []string{"1gold", "0.002gold", "0.0001gold", "5ugold", "1500ugold", "1.5ugold", "3silver", "10silver", "0silver", "1000silver", "2.5gold"}[g.mrng.Intn(11)]
+		g.x.stats.inc("probe_foreign_pricing_generated")
 	}
 	maxPromos := 3
 	if g.stretch {
@@ -480,8 +506,8 @@ func (g *Gen) consumerAct() {
 	for _, b := range binds {
 		if g.chance(0.7) {
 			provs = append(provs, refOfAddr(g, b.Provider))
-			if hp, err := ParseHPricing(b.Pricing); err == nil && hp.Base.IsInt64() && hp.Base.Int64() > maxPrice {
-				maxPrice = hp.Base.Int64()
+			if sp, ok := g.stakePrice(b.Pricing); ok && sp > maxPrice {
+				maxPrice = sp
 			}
 		}
 	}
@@ -999,8 +1025,8 @@ func (g *Gen) burstAct() {
 		}
 		b := binds[g.pick(len(binds))]
 		var price int64 = 1
-		if hp, err := ParseHPricing(b.Pricing); err == nil && hp.Base.IsInt64() && hp.Base.Int64() > 1 {
-			price = hp.Base.Int64()
+		if sp, ok := g.stakePrice(b.Pricing); ok && sp > 1 {
+			price = sp
 		}
 		total += price
 		if !b.Available || int64(b.QoS) > g.x.cur.Params.MaxRequestTimeout {
